@@ -35,13 +35,15 @@ type Profile struct {
 	InitVals    float64
 	Namespaces  float64
 	ValueBad    float64 // share of values that do not convert
+	CmdWord     float64 // share of command words in argument vectors
+	SubOpt      float64 // probability of subcommands-optional on a tag-declared command
 	OnlyTypes   []string
 }
 
 var defaultProfile = Profile{MaxFields: 5, MaxCmdDepth: 2, MaxSubs: 3, PosArgs: 0.3, Required: 0.15, Choices: 0.1, Defaults: 0.2,
 	Env: 0.1, Utf: 0.15, BadDecl: 0.03, ArgvLen: 7, Unknown: 0.08, Weird: 0.05, Handlers: true, Exec: true,
 	OptsMask: flags.HelpFlag | flags.PassDoubleDash | flags.IgnoreUnknown | flags.PrintErrors | flags.PassAfterNonOption,
-	NParses:  1, InitVals: 0.15, Namespaces: 0.3, ValueBad: 0.08}
+	NParses:  1, InitVals: 0.15, Namespaces: 0.3, ValueBad: 0.08, CmdWord: 0.15, SubOpt: 0.2}
 
 var typePool = []string{"str", "str", "str", "bool", "bool", "bool", "int", "int", "i8", "i16", "i32", "i64", "uint", "u8", "u16", "u32", "u64",
 	"f64", "f32", "dur", "Lstr", "Lstr", "Lint", "Lbool", "Li8", "Pstr", "Pint", "Pbool", "Mstr,int", "Mstr,str", "Mint,str", "Mstr,bool",
@@ -414,7 +416,7 @@ func (g *gen) structFor(sc *scope, depth int, allowCmds bool, cmdDepth int) *Str
 			if g.chance(0.1) {
 				tags = append(tags, quoteTag("hidden", "1"))
 			}
-			if g.chance(0.2) {
+			if g.chance(g.p.SubOpt) {
 				tags = append(tags, quoteTag("subcommands-optional", "1"))
 			}
 			if g.chance(0.2) {
@@ -685,7 +687,7 @@ func (g *gen) genArgv(real *Real) []string {
 			} else {
 				argv = append(argv, g.occurrence(o)...)
 			}
-		case x < g.p.Weird+g.p.Unknown+0.65 && len(cur.Commands()) > 0:
+		case x < g.p.Weird+g.p.Unknown+0.5+g.p.CmdWord && len(cur.Commands()) > 0:
 			subs := cur.Commands()
 			s := subs[r.Intn(len(subs))]
 			name := s.Name
@@ -700,7 +702,7 @@ func (g *gen) genArgv(real *Real) []string {
 				cur = found
 				inScope = append(inScope, g.optsOf(real, cur)...)
 			}
-		case x < g.p.Weird+g.p.Unknown+0.7:
+		case x < g.p.Weird+g.p.Unknown+0.55+g.p.CmdWord:
 			argv = append(argv, "--")
 		default:
 			argv = append(argv, []string{"word", "42", "x", "file.txt", "-5", "a b", "é", "1.5", "true"}[r.Intn(9)])
